@@ -6,7 +6,7 @@
    varint_max / varint_size / max / varint_size_discriminant translated from the sources
    (GenArith.v); mhas v t: v is a value of t as serde presents it (capacities, non-zero);
    enc: the encoder of C01/C02. *)
-From PV Require Import Base MachineInt GenArith DataModel MaxSizeDecl GenMaxSize MaxSize Ser WireFormat MaxSizeFacts.
+From PV Require Import Base MachineInt GenArith DataModel MaxSizeDecl GenMaxSize MaxSize Ser WireFormat MaxSizeFacts GenDeriveMaxSize.
 From Coq Require Import Lia.
 Open Scope N_scope.
 
@@ -56,8 +56,20 @@ Example C12_example :
   mty_ok t = true /\ mhas v t = true /\ max_size t = Some (21 * 130 + 2) /\ length (enc v) = 23%nat.
 Proof. repeat split; vm_compute; reflexivity. Qed.
 
+(* the derive of postcard-derive/src/max_size.rs (do_derive_max_size, add_trait_bounds, max_size_sum,
+   sum_fields) is, token for token up to renaming of locals, the code the derive rule of the model
+   was written from (tools/fn_templates.json); varint_size_discriminant is translated (GenArith.v) *)
+Theorem C12_derive_is_the_source :
+  derive_ms_fns_matched =
+  [[97; 100; 100; 95; 116; 114; 97; 105; 116; 95; 98; 111; 117; 110; 100; 115];
+   [100; 111; 95; 100; 101; 114; 105; 118; 101; 95; 109; 97; 120; 95; 115; 105; 122; 101];
+   [109; 97; 120; 95; 115; 105; 122; 101; 95; 115; 117; 109];
+   [115; 117; 109; 95; 102; 105; 101; 108; 100; 115]].
+Proof. exact (eq_refl derive_ms_fns_matched). Qed.
+
 Print Assumptions C12_bound.
 Print Assumptions C12_varint_size.
 Print Assumptions C12_discriminant.
 Print Assumptions C12_tight.
 Print Assumptions C12_varint_size_exact.
+Print Assumptions C12_derive_is_the_source.
